@@ -129,6 +129,9 @@ type FFConfig struct {
 	// behind its pointer-like arguments (needed only where a rule follows data
 	// through buffers, e.g. encoder -> bytes.Buffer -> request body).
 	OutParams bool
+	// CutCall: the result of this (external) call carries nothing of its
+	// arguments (reflect.TypeOf: the type of a value is not the value).
+	CutCall func(site ssa.CallInstruction) bool
 	// StopAt: do not descend into these functions (treated as external).
 	StopAt func(fn *ssa.Function) bool
 }
@@ -176,6 +179,7 @@ type ffEngine struct {
 	rets   map[*ssa.Function][]labelSet
 	allocN map[ssa.Value]lab
 	flag   map[lab]bool
+	flagBool map[lab]bool
 	change bool
 	// provenance (first arrival) for explaining flows
 	owner map[uintptr]string
@@ -289,7 +293,7 @@ var allocCounter int
 func RunFieldFlow(c *Ctx, cfg FFConfig) *FFResult {
 	e := &ffEngine{c: c, cfg: cfg, scope: map[*ssa.Function]bool{}, vals: map[ssa.Value]labelSet{}, ptrOK: map[ssa.Value]bool{}, cells: map[string]labelSet{},
 		events: map[string]*ffSinkEvent{}, reads: map[string]token.Pos{}, stores: map[string]token.Pos{},
-		ctrl: map[*ssa.Function]map[*ssa.BasicBlock][]ctrlDep{}, rets: map[*ssa.Function][]labelSet{}, allocN: map[ssa.Value]lab{}, flag: map[lab]bool{}, owner: map[uintptr]string{}, extIn: map[ssa.CallInstruction]labelSet{}, why: map[whyKey]whyEntry{}}
+		ctrl: map[*ssa.Function]map[*ssa.BasicBlock][]ctrlDep{}, rets: map[*ssa.Function][]labelSet{}, allocN: map[ssa.Value]lab{}, flag: map[lab]bool{}, flagBool: map[lab]bool{}, owner: map[uintptr]string{}, extIn: map[ssa.CallInstruction]labelSet{}, why: map[whyKey]whyEntry{}}
 	cg := c.CG()
 	expand := func(fn *ssa.Function) bool {
 		if !c.P.InModule(fn) {
@@ -529,8 +533,26 @@ func isFlagLike(t types.Type) bool {
 
 // condFlagLabels: the flag-like labels with a call-free derivation on cond.
 func (e *ffEngine) condFlagLabels(cond ssa.Value, out labelSet) {
+	// presence test of a pointer: `x == nil` / `x != nil`
+	if bin, ok := cond.(*ssa.BinOp); ok && (bin.Op == token.EQL || bin.Op == token.NEQ) {
+		var x ssa.Value
+		if isNilConst(bin.Y) {
+			x = bin.X
+		} else if isNilConst(bin.X) {
+			x = bin.Y
+		}
+		if x != nil {
+			for l, bits := range e.val(x) {
+				if bits&bitN != 0 && !l.isAddr() && e.flag[l] {
+					out.add(l, bitN)
+				}
+			}
+			return
+		}
+	}
+	// any call-free condition over a boolean field
 	for l, bits := range e.val(cond) {
-		if bits&bitN == 0 || l.isAddr() || !e.flag[l] {
+		if bits&bitN == 0 || l.isAddr() || !e.flagBool[l] {
 			continue
 		}
 		out.add(l, bitN) // control flow never counts as "unaltered"
@@ -579,6 +601,9 @@ func (e *ffEngine) sourceField(x ssa.Value, xt types.Type, idx int, pos token.Po
 		id := internLab(k)
 		if isFlagLike(ft) {
 			e.flag[id] = true
+			if _, isBool := ft.Underlying().(*types.Basic); isBool {
+				e.flagBool[id] = true
+			}
 		}
 		if e.val(x).add(id, bitN|bitU) {
 			e.change = true
@@ -887,6 +912,9 @@ func (e *ffEngine) call(fn *ssa.Function, b *ssa.BasicBlock, site ssa.CallInstru
 				e.change = true
 			}
 		}
+	}
+	if e.cfg.CutCall != nil && e.cfg.CutCall(site) {
+		return
 	}
 	// external (or unresolved) callee: everything it is given (and the memory
 	// directly behind pointer arguments) may flow into its result and into
